@@ -16,15 +16,24 @@ const RLIMIT_FSIZE: i32 = 1;
 const SIGXFSZ: i32 = 25;
 const SIG_IGN: usize = 1;
 
+struct Restore(RLimit);
+impl Drop for Restore {
+    fn drop(&mut self) {
+        unsafe {
+            setrlimit(RLIMIT_FSIZE, &self.0);
+        }
+    }
+}
+
 pub fn with_file_size_limit<T>(limit: u64, f: impl FnOnce() -> T) -> T {
     unsafe {
         signal(SIGXFSZ, SIG_IGN);
         let mut old = RLimit { cur: 0, max: 0 };
         assert_eq!(getrlimit(RLIMIT_FSIZE, &mut old), 0);
         let new = RLimit { cur: limit, max: old.max };
+        // the old limit comes back when the guard is dropped, also when f panics
+        let _restore = Restore(old);
         assert_eq!(setrlimit(RLIMIT_FSIZE, &new), 0);
-        let r = f();
-        assert_eq!(setrlimit(RLIMIT_FSIZE, &old), 0);
-        r
+        f()
     }
 }
